@@ -136,6 +136,30 @@ check('C14', level='model_checking', steps=[dict(builder=build_esched, name='esc
       deadline=dict(quick=240, thorough=3000),
       mc_keys=dict(states='states', transitions='transitions'), traces_key='schedules_executed')
 
+RULE_CORPUS = ("the nine corpora of drv/corpus.h, each a complete enumeration of a stated finite space (token odometers over the class alphabets of C01-C05/C12, "
+               "every table row / reserved name x prefixes, IDN label products, every byte at every template position, length ladders), each address in 4 modes x tld_check off/on; "
+               "addresses are distinct within a corpus by construction; non-trivial = addresses with a non-empty local part before the last '@' (counted by the driver)")
+check('C12', level='exploration', steps=[dict(src='drv/sinks.c', variant='plain', defs=['-DSINK=12'], name='cross-mode')],
+      rule=RULE_CORPUS + "; C12 counts only pure-ASCII addresses without quote/backslash in the local part as non-trivial", deadline=dict(quick=300, thorough=3000))
+check('C16', level='exploration', steps=[dict(src='drv/sinks.c', variant='plain', defs=['-DSINK=16'], name='result-record'),
+                                           dict(src='drv/sinks.c', variant='extra', defs=['-DSINK=16'], name='result-record-EAV_EXTRA')],
+      rule=RULE_CORPUS, deadline=dict(quick=300, thorough=3000))
+check('C15', level='exploration', steps=[dict(src='drv/sinks.c', variant='plain', defs=['-DSINK=15'], name='diagnostics'),
+                                           dict(builder=build_hist, name='hist-c15', prop='C15', backends=['idn2', 'idn', 'idnkit'])],
+      rule=RULE_CORPUS + "; plus eav_setup over 14 rfc values x 5 prior modes x 3 backends", deadline=dict(quick=300, thorough=3000))
+
+def build_c17(bdir, step):
+    exe = BL.build_driver(bdir, 'drv/c17.c', 'plain', objs=[], libs=('-lidn2',), out=os.path.join(bdir, step['name']))
+    args = []
+    for i in range(8):
+        args += ['--var', BL.build_shared(bdir, 'opt%d' % i)]
+    step['args'] = args
+    return exe
+import c17make
+check('C17', level='exploration', steps=[dict(builder=build_c17, name='options'), dict(kind='py', name='makefile', fn=c17make.run)],
+      rule=RULE_CORPUS + "; every address is run through the 8 option builds side by side; non-trivial = addresses that can trigger an option (an RFC 20 character, '_' in a host name, control/whitespace in the local part)",
+      deadline=dict(quick=300, thorough=3000))
+
 # ---------------------------------------------------------------------------
 def load_findings():
     p = os.path.join(V, 'known_findings.json')
